@@ -94,12 +94,12 @@ class IncludeNode(Node):
                 key = self.alias or template.name.split(".")[0]
 
                 if isinstance(val, Sequence) and not isinstance(val, str):
-                    context.raise_for_loop_limit(len(val))
-                    for itm in val:
-                        namespace[key] = itm
-                        character_count += template.render_with_context(
-                            context, buffer, partial=True
-                        )
+                    with context.carry_loop(len(val)):
+                        for itm in val:
+                            namespace[key] = itm
+                            character_count += template.render_with_context(
+                                context, buffer, partial=True
+                            )
                 else:
                     namespace[key] = val
                     character_count = template.render_with_context(
@@ -139,12 +139,14 @@ class IncludeNode(Node):
                 key = self.alias or template.name.split(".")[0]
 
                 if isinstance(val, Sequence) and not isinstance(val, str):
-                    context.raise_for_loop_limit(len(val))
-                    for itm in val:
-                        namespace[key] = itm
-                        character_count += await template.render_with_context_async(
-                            context, buffer, partial=True
-                        )
+                    with context.carry_loop(len(val)):
+                        for itm in val:
+                            namespace[key] = itm
+                            character_count += (
+                                await template.render_with_context_async(
+                                    context, buffer, partial=True
+                                )
+                            )
                 else:
                     namespace[key] = val
                     character_count = await template.render_with_context_async(
